@@ -12,6 +12,8 @@
 (* Trace format (JSON, see harness/vf/record.py):                          *)
 (*   kind "join" | "ftab";  meas;  filt (ftab: SIZE PREFIX POSITION SUFFIX *)
 (*   OVERLAP);  op;  t = [p, q];  ae, am, sc in {0,1};  q, pad (q-grams);  *)
+(*   pairlevel = 1: the rows are the pairs filter_pair does not drop       *)
+(*   (pairs of two token-less values left out by the harness)              *)
 (*   lkey rkey lpre rpre lcols rcols lout rout (strings);                  *)
 (*   L, R: rows [k |-> key, p |-> present, v |-> tokens or characters,     *)
 (*               c |-> cell codes aligned with lcols / rcols];             *)
@@ -48,7 +50,7 @@ MustHave(T, a, b) ==
   ELSE (* filter_tables *)
        IF T.filt = "OVERLAP"
        THEN TokSet(a) # {} /\ TokSet(b) # {}
-            /\ CmpInt(T.op, Ov(TokSet(a), TokSet(b)), Thr(T)[1])
+            /\ CmpInt(T.op, Ov(TokSet(a), TokSet(b)) * Thr(T)[2], Thr(T)[1])
        ELSE IF IsED(T) THEN MustED("<=", Thr(T), a.v, b.v, T.q, T.pad = 1)
             ELSE KeepMust(T.meas, Thr(T), TokSet(a), TokSet(b))
 
@@ -60,7 +62,7 @@ MayHave(T, a, b) ==
   ELSE IF T.filt = "OVERLAP"
        THEN (* exact: C06 *)
             TokSet(a) # {} /\ TokSet(b) # {}
-            /\ CmpInt(T.op, Ov(TokSet(a), TokSet(b)), Thr(T)[1])
+            /\ CmpInt(T.op, Ov(TokSet(a), TokSet(b)) * Thr(T)[2], Thr(T)[1])
        ELSE IF T.filt \in {"PREFIX", "POSITION"}
             THEN (* C14: candidates only through a shared token *)
                  IF IsED(T) THEN ShareQgram(a.v, b.v, T.q, T.pad = 1)
@@ -159,7 +161,7 @@ Judge(T) ==
            ELSE IF MissingPair(a, b)
            THEN (IF T.am = 1 THEN {<<"C08", "missing-pair-absent", a.k, b.k>>} ELSE {})
            ELSE IF EmptyBoth(T, a, b)
-           THEN (IF EmptyAdmitted(T.meas, T.ae = 1) /\ (T.kind = "join" \/ T.filt # "OVERLAP")
+           THEN (IF EmptyAdmitted(T.meas, T.ae = 1) /\ (T.kind = "join" \/ T.filt # "OVERLAP") /\ T.pairlevel = 0
                  THEN {<<"C09", "empty-pair-absent", a.k, b.k>>} ELSE {})
            ELSE IF NormalPair(T, a, b) /\ MustHave(T, a, b)
            THEN {<<PMust(T), "missed", a.k, b.k>>} ELSE {}
